@@ -229,6 +229,10 @@ func (c *PullClient) requestSDP() (err error) {
 	}
 
 	for _, media := range c.sdp.Media {
+		// 没有格式列表的媒体段（如非 RTP 协议）无法确定编码，不能拉流
+		if (media.Type == "video" || media.Type == "audio") && len(media.Format) == 0 {
+			return fmt.Errorf("sdp: %s media description without format", media.Type)
+		}
 		switch media.Type {
 		case "video":
 			c.vControl = media.Attributes.Get("control")
